@@ -129,6 +129,7 @@ const (
 	// so the counting processor is inside a delay slot when the other one ends the run
 	SpsBDelay = "spsBdelay"
 	SpsD      = "spsD" // MachineD.SinglePipelineSimulate: the program sends a peripheral command
+	Fit0      = "fit0" // MachineB.Fitness_default with a budget of ZERO ticks: the workers are launched and stopped at once
 )
 
 // delayTable is shared by all calls (simfinetune shares one table too); single-valued distributions keep the
@@ -150,6 +151,8 @@ func EntryPoint(kind string) string {
 		return "SinglePipelineSimulate(peripheral command)"
 	case FitA, FitB:
 		return "Fitness_default"
+	case Fit0:
+		return "Fitness_default(zero ticks)"
 	case Basm:
 		return "basm.BasmInstanceInit"
 	}
@@ -192,15 +195,18 @@ func (e *Env) Call(kind string) string {
 			return "error: " + err.Error()
 		}
 		return fmt.Sprint(out)
-	case FitA, FitB:
+	case FitA, FitB, Fit0:
 		bm := e.A
-		if kind == FitB {
+		if kind != FitA {
 			bm = e.B
 		}
 		in, exp := new(simbox.Simbox), new(simbox.Simbox)
 		ticks := uint64(2)
 		if kind == FitB {
 			ticks = 1
+		}
+		if kind == Fit0 {
+			ticks = 0
 		}
 		f, err := bm.Fitness_default(in, exp, ticks)
 		if err != nil {
@@ -335,7 +341,7 @@ func Enumerate(maxN int) []History {
 			add(History{Callers: [][]string{rep(FitB, n)}})
 		}
 	}
-	for _, s := range [][]string{{SpsA, FitA}, {FitA, SpsA}, {SpsA, Basm}, {Basm, SpsA}, {SpsBErr, SpsA}, {SpsA, SpsBErr}, {SpsC, SpsA}, {SpsA, SpsC}, {SpsBDelay, SpsA}, {SpsA, SpsBDelay}, {SpsD, SpsA}, {SpsA, SpsD}, {SpsD, SpsD}} {
+	for _, s := range [][]string{{SpsA, FitA}, {FitA, SpsA}, {SpsA, Basm}, {Basm, SpsA}, {SpsBErr, SpsA}, {SpsA, SpsBErr}, {SpsC, SpsA}, {SpsA, SpsC}, {SpsBDelay, SpsA}, {SpsA, SpsBDelay}, {SpsD, SpsA}, {SpsA, SpsD}, {SpsD, SpsD}, {Fit0, Fit0}, {Fit0, SpsA}, {SpsA, Fit0}} {
 		add(History{Callers: [][]string{s[:1]}})
 		add(History{Callers: [][]string{s}})
 	}
